@@ -16,19 +16,19 @@ func (v *ScriptView) writeCreateSQLForATable(
 ) {
 	v.stringBuilder.WriteString(fmt.Sprintf("CREATE TABLE %s(\n", tableName))
 	var foreignKeyConstraints, primaryKeys, attrNames []string
-	var lineNumbers []int32
-	lineNumberMap := map[int32]string{}
+	// Order the columns by source line, then by name. Line numbers alone are not unique keys: a table declared in
+	// several files can have columns on the same line.
 	for columnName := range table.AttrDefs {
-		column := table.AttrDefs[columnName]
-		lineNumber := column.GetSourceContext().GetStart().GetLine() // nolint:staticcheck
-		lineNumberMap[lineNumber] = columnName
-		lineNumbers = append(lineNumbers, lineNumber)
+		attrNames = append(attrNames, columnName)
 	}
-	sort.Slice(lineNumbers, func(i, j int) bool { return lineNumbers[i] < lineNumbers[j] })
-	for _, lineNo := range lineNumbers {
-		attrName := lineNumberMap[lineNo]
-		attrNames = append(attrNames, attrName)
-	}
+	sort.Slice(attrNames, func(i, j int) bool {
+		lineI := table.AttrDefs[attrNames[i]].GetSourceContext().GetStart().GetLine() // nolint:staticcheck
+		lineJ := table.AttrDefs[attrNames[j]].GetSourceContext().GetStart().GetLine() // nolint:staticcheck
+		if lineI != lineJ {
+			return lineI < lineJ
+		}
+		return attrNames[i] < attrNames[j]
+	})
 	var tableData string
 	for _, attrName := range attrNames {
 		attrType := table.AttrDefs[attrName]
